@@ -198,6 +198,38 @@ func (g *gen) object(signerRef string, flavour string, maxExtra int) unsignedDoc
 			ms = append(ms, mk(g.strLit(), g.value(0)))
 		}
 	}
+	var foldFront, foldBack []member
+	if strings.HasPrefix(flavour, "fold") {
+		// extra keys that differ from camliSigner / camliVersion / camliSig only by case or by Unicode
+		// case folding (s -> U+017F long s; K -> U+212A Kelvin sign has no target in these names but is
+		// tried on a "k"-free name anyway): to a Go MAP they are unrelated keys
+		same := `"` + signerRef + `"`
+		otherRef := g.key[0].ref.String()
+		if otherRef == signerRef {
+			otherRef = g.key[1].ref.String()
+		}
+		other := `"` + otherRef + `"`
+		mkExact := func(k, v string) member { return member{text: k + ":" + v} }
+		var cands []member
+		for _, k := range foldNames("camliSigner") {
+			cands = append(cands, mkExact(k, same), mkExact(k, other), mkExact(k, rnd.Pick([]string{"null", "123", `""`, `"sha224-zz"`})))
+		}
+		for _, k := range foldNames("camliVersion") {
+			cands = append(cands, mkExact(k, rnd.Pick([]string{"2", "null", `"x"`})))
+		}
+		for _, k := range foldNames("camliSig") {
+			cands = append(cands, mkExact(k, `"`+g.fakeSig()+`"`))
+		}
+		n := 1 + rnd.Intn(3)
+		for i := 0; i < n; i++ {
+			c := cands[rnd.Intn(len(cands))]
+			if flavour == "fold-before" || (flavour == "fold-both" && i%2 == 0) {
+				foldFront = append(foldFront, c)
+			} else {
+				foldBack = append(foldBack, c)
+			}
+		}
+	}
 	if flavour == "dup-signer" {
 		// an earlier camliSigner naming another key: the LAST one wins
 		ms = append([]member{mk(`"camliSigner"`, `"`+g.key[1].ref.String()+`"`)}, ms...)
@@ -211,6 +243,7 @@ func (g *gen) object(signerRef string, flavour string, maxExtra int) unsignedDoc
 		j := start + rnd.Intn(i-start+1)
 		ms[i], ms[j] = ms[j], ms[i]
 	}
+	ms = append(append(foldFront, ms...), foldBack...)
 	var b strings.Builder
 	b.WriteString(rnd.Pick([]string{"", "", " ", "\n"}))
 	b.WriteString("{")
@@ -233,6 +266,26 @@ func (g *gen) object(signerRef string, flavour string, maxExtra int) unsignedDoc
 		ud.lookalike = false
 	}
 	return ud
+}
+
+// foldNames: JSON key literals that equal name under encoding/json's struct-field folding (ASCII case,
+// s/S -> U+017F, k/K -> U+212A) but not as exact strings.
+func foldNames(name string) []string {
+	q := func(s string) string { return `"` + s + `"` }
+	out := []string{q(strings.ToUpper(name[:1]) + name[1:]), q(strings.ToUpper(name)), q(strings.ToLower(name))}
+	if i := strings.IndexAny(name, "sS"); i >= 0 {
+		out = append(out, q(name[:i]+"\u017f"+name[i+1:]), q(name[:i]+`\u017f`+name[i+1:]))
+	}
+	if i := strings.IndexAny(name, "kK"); i >= 0 {
+		out = append(out, q(name[:i]+"\u212a"+name[i+1:]))
+	}
+	var res []string
+	for _, o := range out {
+		if o != q(name) {
+			res = append(res, o)
+		}
+	}
+	return res
 }
 
 func (g *gen) sigTime() time.Time {
@@ -370,6 +423,27 @@ func (g *gen) signDoc(ud unsignedDoc, at time.Time) *signedDoc {
 	return sd
 }
 
+// refClaim is the specification's reading of a document, computed without jsonsign: BP is everything
+// before the LAST separator, the signer is the blobref under the EXACT key "camliSigner" of the JSON
+// object BP+"}" (Go map semantics: exact, case-sensitive key; the last duplicate wins).
+func refClaim(doc []byte) (bp []byte, signer blob.Ref, ok bool) {
+	i := bytes.LastIndex(doc, []byte(sep))
+	if i < 0 {
+		return nil, blob.Ref{}, false
+	}
+	bp = doc[:i]
+	var m map[string]any
+	if err := json.Unmarshal(append(append([]byte(nil), bp...), '}'), &m); err != nil || m == nil {
+		return bp, blob.Ref{}, false
+	}
+	s, isStr := m["camliSigner"].(string)
+	if !isStr {
+		return bp, blob.Ref{}, false
+	}
+	signer, ok = blob.Parse(s)
+	return bp, signer, ok
+}
+
 type origInfo struct {
 	t      string
 	signer blob.Ref
@@ -416,10 +490,15 @@ func (g *gen) vop(base []byte, m string, orig *origInfo) vinfo {
 			r.Fail("accepted-but-library-rejects", "Verify accepts a document whose (signer, BP, camliSig) the OpenPGP library rejects",
 				"rejected", out, replay())
 		}
-		if !g.signed[vi.signer.String()][string(vi.bp)] {
-			r.Fail("accepted-unsigned-payload", "Verify accepts a payload that the named key never signed", "rejected", out, replay())
+		refBP, refSigner, refOK := refClaim(d)
+		if !refOK || !bytes.Equal(refBP, vi.bp) || refSigner != vi.signer {
+			r.Fail("accepted-signer-or-payload-not-the-documents", "Verify accepts with a BP/signer that is not (bytes before the last separator, blobref under the exact key camliSigner)",
+				fmt.Sprintf("bp=%d bytes signer=%v", len(refBP), refSigner), out, replay())
 		}
-		if orig != nil && (string(vi.bp) != orig.t || vi.signer != orig.signer) {
+		if !refOK || !g.signed[refSigner.String()][string(refBP)] {
+			r.Fail("accepted-unsigned-payload", "Verify accepts a payload that the key named under the exact key camliSigner never signed", "rejected", out, replay())
+		}
+		if orig != nil && (string(refBP) != orig.t || refSigner != orig.signer || string(vi.bp) != orig.t || vi.signer != orig.signer) {
 			r.Fail("mutation-accepted-with-changed-payload-or-signer", "a mutated document verifies with another payload or signer",
 				"rejected, or payload and signer unchanged", out, replay())
 		}
@@ -566,6 +645,47 @@ func (g *gen) crafted(sd *signedDoc) {
 		expect(x(strings.Replace(doc, sd.signer.ref.String(), other.ref.String(), 1), orig), false, "signer-swapped")
 		expect(x(strings.Replace(doc, sd.signer.ref.String(), g.kn[3].ref.String(), 1), orig), false, "signer-not-a-key")
 		expect(x(strings.Replace(doc, sd.signer.ref.String(), "sha224-"+strings.Repeat("0", 56), 1), orig), false, "signer-unknown")
+	}
+	// keys that differ from camliSigner / camliVersion only by case or Unicode case folding are OTHER keys:
+	// (a) the document signed by the key under the exact key still verifies, (b) a signature by the key
+	// named only under a look-alike key is refused
+	if plainSigner {
+		signWith := func(k *knownBlob, payload string) string {
+			a, err := armoredDetachSign(k.ent, payload, sd.at)
+			if err != nil {
+				return ""
+			}
+			g.logSigned(k.ref, payload)
+			return payload + sep + stripArmorRef(a) + "\"}\n"
+		}
+		brace := strings.Index(t, "{")
+		for vi, name := range foldNames("camliSigner") {
+			for _, val := range []*knownBlob{other, sd.signer} {
+				extra := name + `:"` + val.ref.String() + `"`
+				after := t + "," + extra
+				before := t[:brace+1] + extra + "," + t[brace+1:]
+				for _, pl := range []string{after, before} {
+					what := fmt.Sprintf("casefold-signer-%d", vi)
+					honest := &origInfo{t: pl, signer: sd.signer.ref}
+					expect(x(signWith(sd.signer, pl), honest), true, what+"-signed-by-exact-key")
+					if val != sd.signer {
+						expect(x(signWith(other, pl), honest), false, what+"-signed-by-lookalike-key")
+					}
+					r.Hit("casefold:signer-lookalike-documents")
+				}
+			}
+			// only the look-alike key, no exact camliSigner at all
+			only := strings.Replace(t, `"camliSigner"`, name, 1)
+			expect(x(signWith(sd.signer, only), &origInfo{t: only, signer: sd.signer.ref}), false, "casefold-signer-only-lookalike")
+		}
+		if strings.Count(t, `"camliVersion"`) == 1 {
+			for _, name := range foldNames("camliVersion") {
+				only := strings.Replace(t, `"camliVersion"`, name, 1)
+				expect(x(signWith(sd.signer, only), &origInfo{t: only, signer: sd.signer.ref}), false, "casefold-version-only-lookalike")
+				both := t + "," + name + ":null"
+				expect(x(signWith(sd.signer, both), &origInfo{t: both, signer: sd.signer.ref}), true, "casefold-version-extra")
+			}
+		}
 	}
 	// a signature by the OTHER key over the same payload, the document still naming the first key
 	if a, err := armoredDetachSign(other.ent, t, sd.at); err == nil {
@@ -718,7 +838,8 @@ func Run(r *hk.Run) {
 	if th {
 		nDocs, nFullSweep, nSetSweep, nRand = 240, 3, 24, 600
 	}
-	flavours := []string{"", "", "", "", "", "", "dup-signer", "signer-escaped", "no-version", "no-signer", "signer-number", "signer-null"}
+	flavours := []string{"", "", "", "", "", "", "dup-signer", "signer-escaped", "no-version", "no-signer", "signer-number", "signer-null",
+		"fold-before", "fold-after", "fold-both", "fold-after"}
 	var good []*signedDoc
 	var texts []string
 	for i := 0; i < nDocs; i++ {
@@ -727,15 +848,21 @@ func Run(r *hk.Run) {
 		if i < 6 {
 			fl = ""
 		}
+		if i == 6 {
+			fl = "fold-after"
+		}
+		if i == 7 {
+			fl = "fold-before"
+		}
 		ref := k.ref.String()
 		switch {
-		case i >= 6 && rnd.Chance(4):
+		case i >= 8 && rnd.Chance(4):
 			ref = "sha224-" + strings.Repeat("ab", 28) // no such blob
-		case i >= 6 && rnd.Chance(3):
+		case i >= 8 && rnd.Chance(3):
 			ref = g.kn[3].ref.String() // a blob that is not a key
-		case i >= 6 && rnd.Chance(3):
+		case i >= 8 && rnd.Chance(3):
 			ref = g.kn[2].ref.String() // a public key without secret key
-		case i >= 6 && rnd.Chance(3):
+		case i >= 8 && rnd.Chance(3):
 			ref = rnd.Pick([]string{"", "sha224-xyz", "sha224", "SHA224-" + strings.Repeat("ab", 28), "foo-bar", "sha1-" + strings.Repeat("0", 39)})
 		}
 		maxExtra := 5
@@ -750,7 +877,7 @@ func Run(r *hk.Run) {
 			}
 		}
 		kinds := g.stdKeys()
-		if i >= 6 && rnd.Chance(5) {
+		if i >= 8 && rnd.Chance(5) {
 			delete(kinds, k) // the key blob is not there at all
 		}
 		g.newCase(fmt.Sprintf("object %d flavour=%q lookalike=%v", i, fl, ud.lookalike), kinds)
